@@ -2,11 +2,12 @@
 //! /verif/DESIGN.md section 6 "C20" and spec/OptParse.tla.
 mod classes;
 mod core;
+mod getopts;
 
 fn main() {
     let args: Vec<String> = std::env::args().collect();
     if args.len() < 2 {
-        eprintln!("usage: yv-c20 <enum|random|redo> ...");
+        eprintln!("usage: yv-c20 <enum|random|redo|classes|one|getopts> ...");
         std::process::exit(2);
     }
     let rest = &args[2..];
@@ -15,6 +16,7 @@ fn main() {
         "random" => core::random(rest),
         "redo" => core::redo(rest),
         "classes" => classes::classes(rest),
+        "getopts" => getopts::run(rest),
         "one" => classes::one(rest),
         other => {
             eprintln!("unknown subcommand {other}");
